@@ -1,6 +1,7 @@
 package main
 
 import (
+	"sort"
 	"go/types"
 	"math"
 	"fmt"
@@ -241,6 +242,16 @@ func init() {
 					return true
 				}
 			}
+			// a map of concrete plain-ASCII string keys and values marshals to its real JSON text
+			// (keys sorted, no escaping needed), so byte counts agree with the native run
+			if txt, ok := e.plainJSONObject(mv); ok {
+				elems := make([]Value, len(txt))
+				for i := range elems {
+					elems[i] = ts.BVInt(8, int64(txt[i]))
+				}
+				setRes(st, x, TupleV{e.mkSlice(st, elems), nilErr()})
+				return true
+			}
 			setRes(st, x, TupleV{opaque(3), nilErr()})
 			return true
 		}
@@ -321,4 +332,53 @@ func init() {
 		setRes(st, x, ts.And(ts.Eq(t.F[0].(*Term), ts.BVInt(64, 0)), ts.Eq(t.F[1].(*Term), ts.BVInt(64, 0))))
 		return true
 	}
+}
+
+
+// plainJSONObject renders a map[string]any whose keys and values are concrete strings of printable
+// ASCII without characters encoding/json escapes.
+func (e *Engine) plainJSONObject(mv *MapV) (string, bool) {
+	plain := func(s string) bool {
+		for i := 0; i < len(s); i++ {
+			c := s[i]
+			if c < 0x20 || c >= 0x7f || c == '"' || c == '\\' || c == '<' || c == '>' || c == '&' {
+				return false
+			}
+		}
+		return true
+	}
+	type kv struct{ k, v string }
+	var kvs []kv
+	for i, k := range mv.Keys {
+		ks, ok := k.(*StrV)
+		if !ok {
+			return "", false
+		}
+		key, ok := strConcrete(ks)
+		if !ok || !plain(key) {
+			return "", false
+		}
+		iv, ok := mv.Vals[i].(*IfaceV)
+		if !ok {
+			return "", false
+		}
+		vs, ok := iv.V.(*StrV)
+		if !ok {
+			return "", false
+		}
+		val, ok := strConcrete(vs)
+		if !ok || !plain(val) {
+			return "", false
+		}
+		kvs = append(kvs, kv{key, val})
+	}
+	sort.Slice(kvs, func(i, j int) bool { return kvs[i].k < kvs[j].k })
+	out := "{"
+	for i, p := range kvs {
+		if i > 0 {
+			out += ","
+		}
+		out += "\"" + p.k + "\":\"" + p.v + "\""
+	}
+	return out + "}", true
 }
